@@ -460,6 +460,57 @@ def peeling_rule(prog: Program, rep, RID: str):
         rep.violation(RID, key + ":source-init", "sources are not initialised with float('inf') under `in_degree == 0`", g.loc(outer[0]))
 
 
+def antichain_network(prog: Program, rep, RID: str):
+    """The min-cost-flow network behind the maximum edge antichain: the lower bound (demand) of an edge is the caller's weight
+    when a weight function is given (0 when the edge is missing from it) and otherwise 1 for the edges of the input graph and 0
+    for the synthetic source / sink edges; only edges leaving the source cost 1 (every path pays once)."""
+    from rules.common import canonical_calls, expr_cases
+    from sa import boolnf as B
+    f = prog.own_method("stDAG", "compute_max_edge_antichain")
+    calls = [(t, c, ln) for t, c, ln in canonical_calls(f.node) if re.match(r"\w+\.add_edge\(<self\.edges(\(\))?>\[0\], <self\.edges(\(\))?>\[1\]", t)]
+    if len(calls) != 1:
+        raise AnalysisError("compute_max_edge_antichain: construction of the flow network (one add_edge per edge of self) not recognised")
+    call = ast.parse(calls[0][0].replace("<self.edges()>[0]", "U").replace("<self.edges()>[1]", "V").replace("<self.edges>[0]", "U").replace("<self.edges>[1]", "V"), mode="eval").body
+    kws = {k.arg: k.value for k in call.keywords}
+    if "l" not in kws or "c" not in kws:
+        raise AnalysisError("compute_max_edge_antichain: lower bound `l` / cost `c` of the network edges not found")
+    has_w = B.parse(ast.parse("weight_function", mode="eval").body)
+    inner = B.parse(ast.parse("U != self.source and V != self.sink", mode="eval").body)
+    key = "stDAG.compute_max_edge_antichain:demand"
+    problems = []
+    for g, x in expr_cases(kws["l"]):
+        txt = norm(x)
+        if B.implies(g, has_w) and B.satisfiable(g):
+            if txt not in ("weight_function.get((U, V), 0)", "weight_function.get((U, V), 0.0)"):
+                problems.append(f"with a weight function the demand of (u, v) is `{txt}` (must be the caller's weight, 0 if missing)")
+        elif B.implies(g, B.mk_not(has_w)):
+            ok_ = False
+            if txt in ("int(U != self.source and V != self.sink)", "int(V != self.sink and U != self.source)"):
+                ok_ = True
+            elif txt in ("1", "0"):
+                need = inner if txt == "1" else B.mk_not(inner)
+                ok_ = B.implies(g, need)
+            if not ok_:
+                problems.append(f"without a weight function the demand is `{txt}` under [{B.key(g)[:80]}] (must be 1 for input edges, 0 for synthetic source / sink edges)")
+        else:
+            problems.append(f"the demand `{txt}` does not depend on whether a weight function was given")
+    if problems:
+        rep.violation(RID, key, problems[0] + ": the reported optimum is not the maximum weight of an antichain", f"{f.module.relpath}:{calls[0][2]}")
+    else:
+        rep.ok(RID, key, "demand = caller's weight (0 if missing) / 1 for input edges, 0 for synthetic edges", f"{f.module.relpath}:{calls[0][2]}")
+    key = "stDAG.compute_max_edge_antichain:cost"
+    is_src = B.parse(ast.parse("U == self.source", mode="eval").body)
+    bad = None
+    for g, x in expr_cases(kws["c"]):
+        txt = norm(x)
+        if txt == "1" and not B.implies(g, is_src) or txt == "0" and not B.implies(g, B.mk_not(is_src)) or txt not in ("0", "1"):
+            bad = f"cost `{txt}` under [{B.key(g)[:80]}]"
+    if bad:
+        rep.violation(RID, key, f"{bad}: each path must pay exactly 1 (on its first edge) for the flow value to count paths", f"{f.module.relpath}:{calls[0][2]}")
+    else:
+        rep.ok(RID, key, "cost 1 exactly on the edges leaving the source", f"{f.module.relpath}:{calls[0][2]}")
+
+
 def check(prog: Program, rep):
     am = AliasModel(prog)
     rep.rule("C17.R1", "cache ownership", floor=9)
@@ -474,6 +525,8 @@ def check(prog: Program, rep):
     dp_direction(prog, rep, "C17.R4")
     rep.rule("C17.R5", "bottleneck peeling: subtracted amount == published weight on every edge of the path; DP recurrence and path recovery", floor=9)
     peeling_rule(prog, rep, "C17.R5")
+    rep.rule("C17.R6", "maximum edge antichain: demands and costs of the min-cost-flow network", floor=2)
+    antichain_network(prog, rep, "C17.R6")
     from rules.c09 import width_cache
     rep.rule("C17.R3b", "width cache key", floor=4)
     width_cache(prog, rep, "C17.R3b")
